@@ -20,7 +20,7 @@ def run(ctx):
                        "enqueue, ack, drop full/expired-in-flight, register, unregister, terminated x 3 reasons, late packets of displaced connections}; "
                        "binding: seeded scenarios - mixed workloads (2-4 clients v3.1/v3.1.1/v5, all packet types of accepted connections, QoS 0/1/2 both "
                        "directions, manual acks, small windows, offline queueing, resume, take-over, clean start over a stored session, TerminateSession, abort), "
-                       "one family per drop reason (queue full with the subscriber offline / window-blocked / every copy in flight, expired by configuration / by publisher, oversize%s), "
+                       "PUBLISH sizes on the boundaries of the Remaining Length encoding (127/128, 16383/16384; both versions, both directions), one family per drop reason (queue full with the subscriber offline / window-blocked / every copy in flight, expired by configuration / by publisher, oversize%s), "
                        "sessions ending while holding messages, client AUTH%s; every snapshot is compared field by field (global and every client id used); "
                        "non-trivial = scenarios with >= 1 snapshot" % (6 if quick else 8, "" if quick else ", expired in flight after the 30 s inflight_expiry", "" if quick else ", the 20 s session expiry sweep"))
     ctx.assumptions += [
@@ -53,6 +53,7 @@ def run(ctx):
         scs += stats_scen.lifecycle(rng, sid + "x", 8, expiry_wait=True)
         scs += stats_scen.drops(rng, sid + "i", 8, inflight_wait=True)
     scs += stats_scen.all_packets(rng, sid)
+    scs += stats_scen.sizes(rng, sid)
     scs += stats_scen.auth(rng, sid, 3 if quick else 20)
     scs += stats_scen.lifecycle(rng, sid, 18 if quick else 240)
     scs += stats_scen.drops(rng, sid, 20 if quick else 300)
